@@ -373,8 +373,29 @@ func runC09(c *Ctx) {
 				class = "from-decoded-with-repeats"
 			}
 		}
+		var pre []string
+		if init == "" && rng.Intn(10) == 0 {
+			// a decoded stream may hold a list without entries (a header alone, SignatureSize 48) in front of
+			// a list of the same type that is about to lose its only entry: the untouched list stays as it is
+			e := func(o util.EFIGUID, d []byte) []byte {
+				var b bytes.Buffer
+				binary.Write(&b, binary.LittleEndian, o)
+				b.Write(d)
+				return b.Bytes()
+			}
+			s := encList(gSHA256, 28, 0, 48, nil, nil)
+			s = append(s, encList(gSHA256, 28+48, 0, 48, nil, [][]byte{e(u.owners[0], u.hashes[0])})...)
+			if rng.Intn(2) == 0 {
+				s = append(s, encList(gX509, uint32(28+len(u.ders[3])+16), 0, uint32(len(u.ders[3])+16), nil, [][]byte{e(u.owners[2], u.ders[3])})...)
+			}
+			if nd, err := signature.ReadSignatureDatabase(bytes.NewReader(s)); err == nil {
+				init = dbArg(nd)
+				class = "from-decoded-with-empty-list"
+				pre = []string{fmt.Sprintf("R~%s~%s~%s", guidArg(gSHA256), guidArg(u.owners[0]), hx(u.hashes[0])), "E"}
+			}
+		}
 		nops := 1 + rng.Intn(maxOps)
-		ops := u.genOps(rng, nops, false)
+		ops := append(pre, u.genOps(rng, nops, false)...)
 		opsArg := strings.Join(ops, "&")
 		o := c.Impl("db_history", init, opsArg)
 		if o.Class != "ret" || len(o.Fields) == 0 {
